@@ -17,6 +17,7 @@ The lattice keys are canonical (enumerated space): the known failures of the unc
 known/C06-*.txt; `VERIF_C06_DUMP=1` regenerates those files by exhaustive enumeration (see known/C06-README.md).
 """
 import itertools
+import math
 import os
 import sys
 import time
@@ -464,7 +465,7 @@ def internal_tangency(rnd):
     """a valid cubic triangle OUTER with an S-shaped first edge (varying second derivative) and a small valid quadratic
     triangle INNER inside it that touches that edge from the inside at exactly one point: parameter 1/2 on the inner edge,
     t* != 1/2 on the outer edge (all coordinates dyadic, so the tangency is exact).  The common region is INNER."""
-    for _ in range(200):
+    for _ in range(2000):
         # corners on a coarse lattice, first edge bent into an S
         w, h = rnd.randint(5, 8), rnd.randint(5, 8)
         c0, c1, c2 = (Fr(0), Fr(0)), (Fr(w), Fr(0)), (Fr(rnd.randint(2, w - 2)), Fr(h))
@@ -487,6 +488,24 @@ def internal_tangency(rnd):
         tan = (X.hodograph_exact(ex, ts), X.hodograph_exact(ey, ts))
         nrm = (-tan[1], tan[0])                      # points into OUTER (positively oriented)
         al, be, ga = Fr(1, rnd.choice([8, 16])), Fr(1, rnd.choice([256, 512])), Fr(1, rnd.choice([4, 8]))
+        # in two cases out of three the curvature of the inner edge (2 be / (al^2 |T|)) is placed strictly between the
+        # curvatures of the S-shaped edge at t* and at 1/2, so that the verdict depends on WHERE the outer curvature is taken
+        if rnd.random() < 0.67:
+            def kappa(u):
+                d1 = (float(X.hodograph_exact(ex, u)), float(X.hodograph_exact(ey, u)))
+                d2 = (float(X.second_deriv_exact(ex, u)), float(X.second_deriv_exact(ey, u)))
+                return (d1[0] * d2[1] - d1[1] * d2[0]) / (d1[0] ** 2 + d1[1] ** 2) ** 1.5
+            kt, kh = kappa(ts), kappa(Fr(1, 2))
+            kmid = (kt + kh) / 2
+            tl = (float(tan[0]) ** 2 + float(tan[1]) ** 2) ** 0.5
+            if kmid > 0 and abs(kt - kh) > 1e-3:
+                want = kmid * float(al) ** 2 * tl / 2
+                m = max(3, min(14, round(-math.log2(want)))) if want > 0 else 8
+                cand = [Fr(q, 2 ** (m + 3)) for q in range(1, 64)]
+                lo, hi = sorted((kt, kh))
+                good = [b_ for b_ in cand if lo < 2 * float(b_) / (float(al) ** 2 * tl) < hi]
+                if good:
+                    be = min(good, key=lambda b_: abs(float(b_) - want))
         a = (touch[0] - al * tan[0] + be * nrm[0], touch[1] - al * tan[1] + be * nrm[1])
         c = (touch[0] + al * tan[0] + be * nrm[0], touch[1] + al * tan[1] + be * nrm[1])
         ctrl = (touch[0] - be * nrm[0], touch[1] - be * nrm[1])
@@ -499,7 +518,7 @@ def internal_tangency(rnd):
         if not all(Z_f64(v) and (v * 2 ** 40).denominator == 1 for rr in (rows, inner) for row in rr for v in row):
             continue
         return rows, inner
-    raise RuntimeError("no internal tangency generated")
+    return None
 
 
 def Z_f64(v):
@@ -1111,12 +1130,14 @@ def main():
                 n1, d1, n2, d2 = rnd.choice(small), 1, bq, 2
             if rnd.random() < 0.5:
                 n1, d1, n2, d2 = n2, d2, n1, d1
-        elif k % 5 == 4 and k % 2 == 0:
-            # containment with an internal tangency on a cubic S-shaped edge (parameters 1/2 and t* != 1/2)
-            outer3, inner2 = internal_tangency(rnd)
-            n1, d1, n2, d2 = inner2, 2, outer3, 3
-            if rnd.random() < 0.5:
-                n1, d1, n2, d2 = n2, d2, n1, d1
+        elif k % 5 == 4:
+            # an internal tangency on a cubic S-shaped edge (parameters 1/2 and t* != 1/2): containment or a thin sliver
+            # outside, depending on the curvatures at the contact point
+            tang = internal_tangency(rnd)
+            if tang is not None:
+                n1, d1, n2, d2 = tang[1], 2, tang[0], 3
+                if rnd.random() < 0.5:
+                    n1, d1, n2, d2 = n2, d2, n1, d1
         elif k % 5 == 3:
             # a corner of a curved triangle in the interior of an edge of a straight one, reached by a curved edge
             t1s, t2q = corner_on_edge_curved(rnd)
@@ -1150,6 +1171,21 @@ def main():
                             {"kind": "curved", "n1": C.jfr(n1), "d1": d1, "n2": C.jfr(n2), "d2": d2, "entry": entry, "strategy": strategy})
             elif text.startswith("regions"):
                 res.sample({"kind": "curved", "degrees": [d1, d2], "entry": entry, "strategy": strategy, "outcome": text})
+    # ---------------- internal tangencies on an S-shaped cubic edge (both argument orders, geometric, function level)
+    n_tang = 0 if "curved" not in parts else ((24 if not thorough else 160) * (2 if search else 1))
+    for k in range(n_tang):
+        if not thorough and time.time() - t_start > 200:
+            res.skip("time budget: remaining tangency cases not run")
+            break
+        tang = internal_tangency(rnd)
+        if tang is None:
+            continue
+        for (n1, d1, n2, d2) in ((tang[1], 2, tang[0], 3), (tang[0], 3, tang[1], 2)):
+            what, text = run_curved(n1, d1, n2, d2, "function", "geometric")
+            res.count(("tangency", str(n1), str(n2)), nontrivial=True, space="tangency-function-geometric", outcome=(what or text))
+            if what is not None:
+                fails.add("curved:" + what, "internal tangency, degrees %d and %d: %s" % (d1, d2, text),
+                          {"kind": "curved", "n1": C.jfr(n1), "d1": d1, "n2": C.jfr(n2), "d2": d2, "entry": "function", "strategy": "geometric"})
     res.notes.append("wall: lattice %.1fs, curved %.1fs" % (t_curved - t_start, time.time() - t_curved))
     res.emit()
 
